@@ -405,7 +405,7 @@ def step (n : Node) (op : Op) : Node × Out :=
       | some (c, listen) =>
         -- install(cls); then `self.applications[uuid] = inst`, the route again (both already there), `inst.install()`
         let n1 := n.installApp c listen .good 2
-        let n2 := { n1 with apps := n1.apps.map (fun i => if i.m.uid = n.next then { i with a := i.a.install } else i) }
+        let n2 := { n1 with apps := n1.apps.map (fun i => { i with a := if i.m.uid = n.next then i.a.install else i.a }) }
         (n2, .status (Status.ofBool (dhas name n2.software)))
   | .reqUninstall name =>
     if !n.isOn then (n, .status .failure)
